@@ -132,6 +132,10 @@ pub struct PlutusS {
     /// Alonzo / Babbage: the witness set also carries the other script lists (native, other Plutus versions) as empty arrays
     #[serde(default)]
     pub empty_sibling_lists: bool,
+    /// two collateral inputs instead of one: a small one (sorted first) and one with the rest, so that the amount is
+    /// only sufficient when every collateral input is counted
+    #[serde(default)]
+    pub second_collateral: bool,
 }
 
 #[derive(Debug, Clone, PartialEq, Serialize, Deserialize)]
@@ -401,8 +405,16 @@ pub fn forge_with(spec: &Spec, tw: &Tweaks) -> Result<Forged, String> {
         total_coin += p.coin as u128;
         let ct = txid(0xcc);
         let cref = (ct, 0u64);
-        let cout = output_node(era, spec.legacy_outputs, &key_addr(p.collateral_key), cx::uint(p.collateral_coin), None);
+        let small = 100_000u64.min(p.collateral_coin / 2);
+        // (Babbage and later: the Alonzo validator applies the minimum to every collateral input on its own)
+        let two = p.second_collateral && era.babbage_plus();
+        let first_coin = if two { small } else { p.collateral_coin };
+        let cout = output_node(era, spec.legacy_outputs, &key_addr(p.collateral_key), cx::uint(first_coin), None);
         utxos.push(Utxo { txid: ct, idx: 0, era, output: cx::write(&cout), key_locked_by: Some(p.collateral_key), role: "collateral" });
+        if two {
+            let cout2 = output_node(era, spec.legacy_outputs, &key_addr(p.collateral_key), cx::uint(p.collateral_coin - small), None);
+            utxos.push(Utxo { txid: ct, idx: 1, era, output: cx::write(&cout2), key_locked_by: Some(p.collateral_key), role: "collateral" });
+        }
         if !signers.contains(&p.collateral_key) {
             signers.push(p.collateral_key);
         }
@@ -578,7 +590,11 @@ pub fn forge_with(spec: &Spec, tw: &Tweaks) -> Result<Forged, String> {
                 script_data_hash = Some(b256(&pre));
             }
         }
-        collateral_fields.push((13, cx::array(vec![input_node(&cref.0, cref.1)])));
+        let mut coll = vec![input_node(&cref.0, cref.1)];
+        if era.babbage_plus() && spec.plutus.as_ref().map(|p| p.second_collateral).unwrap_or(false) {
+            coll.push(input_node(&cref.0, 1));
+        }
+        collateral_fields.push((13, cx::array(coll)));
         if era.babbage_plus() {
             if let Some(p) = &spec.plutus {
                 let mut paid = *ccoin;
